@@ -37,6 +37,12 @@ Proofs/Decimal.vos Proofs/Decimal.vok Proofs/Decimal.required_vos: Proofs/Decima
 Proofs/Strings.vo Proofs/Strings.glob Proofs/Strings.v.beautified Proofs/Strings.required_vo: Proofs/Strings.v Base/Base.vo Model/Reader.vo Model/Printer.vo Model/Store.vo Model/Eval.vo Model/Init.vo Proofs/Decimal.vo
 Proofs/Strings.vio: Proofs/Strings.v Base/Base.vio Model/Reader.vio Model/Printer.vio Model/Store.vio Model/Eval.vio Model/Init.vio Proofs/Decimal.vio
 Proofs/Strings.vos Proofs/Strings.vok Proofs/Strings.required_vos: Proofs/Strings.v Base/Base.vos Model/Reader.vos Model/Printer.vos Model/Store.vos Model/Eval.vos Model/Init.vos Proofs/Decimal.vos
+Proofs/Sort.vo Proofs/Sort.glob Proofs/Sort.v.beautified Proofs/Sort.required_vo: Proofs/Sort.v Base/Base.vo Model/Reader.vo Model/Printer.vo Model/Store.vo Model/Eval.vo
+Proofs/Sort.vio: Proofs/Sort.v Base/Base.vio Model/Reader.vio Model/Printer.vio Model/Store.vio Model/Eval.vio
+Proofs/Sort.vos Proofs/Sort.vok Proofs/Sort.required_vos: Proofs/Sort.v Base/Base.vos Model/Reader.vos Model/Printer.vos Model/Store.vos Model/Eval.vos
+Proofs/Equality.vo Proofs/Equality.glob Proofs/Equality.v.beautified Proofs/Equality.required_vo: Proofs/Equality.v Base/Base.vo Model/Reader.vo Model/Printer.vo Model/Store.vo Model/Eval.vo
+Proofs/Equality.vio: Proofs/Equality.v Base/Base.vio Model/Reader.vio Model/Printer.vio Model/Store.vio Model/Eval.vio
+Proofs/Equality.vos Proofs/Equality.vok Proofs/Equality.required_vos: Proofs/Equality.v Base/Base.vos Model/Reader.vos Model/Printer.vos Model/Store.vos Model/Eval.vos
 Props/C03.vo Props/C03.glob Props/C03.v.beautified Props/C03.required_vo: Props/C03.v Base/Base.vo Model/Reader.vo Model/Printer.vo Model/Store.vo Model/Eval.vo Model/Init.vo Proofs/EvalRel.vo
 Props/C03.vio: Props/C03.v Base/Base.vio Model/Reader.vio Model/Printer.vio Model/Store.vio Model/Eval.vio Model/Init.vio Proofs/EvalRel.vio
 Props/C03.vos Props/C03.vok Props/C03.required_vos: Props/C03.v Base/Base.vos Model/Reader.vos Model/Printer.vos Model/Store.vos Model/Eval.vos Model/Init.vos Proofs/EvalRel.vos
@@ -52,6 +58,12 @@ Props/C12.vos Props/C12.vok Props/C12.required_vos: Props/C12.v Base/Base.vos Mo
 Props/C13.vo Props/C13.glob Props/C13.v.beautified Props/C13.required_vo: Props/C13.v Base/Base.vo Model/Reader.vo Model/Printer.vo Model/Store.vo Model/Eval.vo Model/Init.vo Proofs/Numeric.vo
 Props/C13.vio: Props/C13.v Base/Base.vio Model/Reader.vio Model/Printer.vio Model/Store.vio Model/Eval.vio Model/Init.vio Proofs/Numeric.vio
 Props/C13.vos Props/C13.vok Props/C13.required_vos: Props/C13.v Base/Base.vos Model/Reader.vos Model/Printer.vos Model/Store.vos Model/Eval.vos Model/Init.vos Proofs/Numeric.vos
+Props/C14.vo Props/C14.glob Props/C14.v.beautified Props/C14.required_vo: Props/C14.v Base/Base.vo Model/Reader.vo Model/Printer.vo Model/Store.vo Model/Eval.vo Model/Init.vo Proofs/Equality.vo
+Props/C14.vio: Props/C14.v Base/Base.vio Model/Reader.vio Model/Printer.vio Model/Store.vio Model/Eval.vio Model/Init.vio Proofs/Equality.vio
+Props/C14.vos Props/C14.vok Props/C14.required_vos: Props/C14.v Base/Base.vos Model/Reader.vos Model/Printer.vos Model/Store.vos Model/Eval.vos Model/Init.vos Proofs/Equality.vos
 Props/C15.vo Props/C15.glob Props/C15.v.beautified Props/C15.required_vo: Props/C15.v Base/Base.vo Model/Reader.vo Model/Printer.vo Model/Store.vo Model/Eval.vo Model/Init.vo Proofs/Decimal.vo Proofs/Strings.vo
 Props/C15.vio: Props/C15.v Base/Base.vio Model/Reader.vio Model/Printer.vio Model/Store.vio Model/Eval.vio Model/Init.vio Proofs/Decimal.vio Proofs/Strings.vio
 Props/C15.vos Props/C15.vok Props/C15.required_vos: Props/C15.v Base/Base.vos Model/Reader.vos Model/Printer.vos Model/Store.vos Model/Eval.vos Model/Init.vos Proofs/Decimal.vos Proofs/Strings.vos
+Props/C17.vo Props/C17.glob Props/C17.v.beautified Props/C17.required_vo: Props/C17.v Base/Base.vo Model/Reader.vo Model/Printer.vo Model/Store.vo Model/Eval.vo Model/Init.vo Proofs/Sort.vo
+Props/C17.vio: Props/C17.v Base/Base.vio Model/Reader.vio Model/Printer.vio Model/Store.vio Model/Eval.vio Model/Init.vio Proofs/Sort.vio
+Props/C17.vos Props/C17.vok Props/C17.required_vos: Props/C17.v Base/Base.vos Model/Reader.vos Model/Printer.vos Model/Store.vos Model/Eval.vos Model/Init.vos Proofs/Sort.vos
